@@ -109,7 +109,7 @@ def instance_name_from_service_info(info: "ServiceInfo", strict: bool = True) ->
     # This is kind of funky because of the subtype based tests
     # need to make subtypes a first class citizen
     service_name = service_type_name(info.name, strict=strict)
-    if not info.type.endswith(service_name):
+    if not info.type.lower().endswith(service_name.lower()):
         raise BadTypeInNameException
     return info.name[: -len(service_name) - 1]
 
@@ -189,7 +189,9 @@ class ServiceInfo(RecordUpdateListener):
         # Accept both none, or one, but not both.
         if addresses is not None and parsed_addresses is not None:
             raise TypeError("addresses and parsed_addresses cannot be provided together")
-        if not type_.endswith(service_type_name(name, strict=False)):
+        # (case-insensitively: a browser hands out the type as the application
+        # spelled it and the instance name as the responder spelled it)
+        if not type_.lower().endswith(service_type_name(name, strict=False).lower()):
             raise BadTypeInNameException
         self.interface_index = interface_index
         self.text = b''
